@@ -1,5 +1,5 @@
 (* C16 — LastDebugErr tells exactly when a reached comparison could not be decided. *)
-From Rules Require Import Spec Eval Refinement SemProps SemLaws Theorems.
+From Rules Require Import Spec Eval Refinement SemProps SemLaws Theorems OpsProps UndecidedProofs.
 
 Theorem C16_iff :
   forall lower top q, wf_query q -> sem lower top q None <> SPanic ->
@@ -13,6 +13,14 @@ Theorem C16_latest :
   forall lower top q d d', dbg_result (sem lower top q d) = Some d' -> d' = fold_dbg lower top d (fst (reached lower top q)).
 Proof. exact sem_dbg. Qed.
 Print Assumptions C16_latest.
+
+(* leaf level: a comparison produces a diagnostic exactly when it is undecided — the operator is
+   unsupported for the literal, the attribute is absent, or its type/format (or the shape of
+   the literal) cannot be compared; [decidable] is written from that reading *)
+Theorem C16_leaf_iff_undecided :
+  forall lower t op l r b e, op_apply lower t op l r = Ok (b, e) -> (e <> None <-> undecided t op l r = true).
+Proof. exact diagnostic_iff_undecided. Qed.
+Print Assumptions C16_leaf_iff_undecided.
 
 (* `x le 1.5` on {x:"s"} leaves a diagnostic, like `x lt 1.5` *)
 Example C16_example :
